@@ -22,6 +22,22 @@ def run(tier):
         kind = rng.choice(["random", "random", "pct", "pct", "dfs", "rr", "urw"])
         ms = rng.choice(["none", "none", "none", "fail:%d" % rng.randint(3, 25), "cont:%d" % rng.randint(3, 25)])
         rcases.append("replay %s %d %d %d %s %s %s" % (kind, rng.getrandbits(64), rng.randint(1, 4), rng.choice([1, 2, 4, 8]), ms, objs, bodies))
+    # thread lifecycles: thread-locals with destructor bodies (which draw, yield, lock), scopes, nested spawns
+    for i in range(150 if tier == "quick" else 2000):
+        f = gen_prog.gen_lifecycle(rng).split(" ")
+        rcases.append("replay %s %d %d %d none %s %s" % (rng.choice(["random", "pct", "urw", "dfs"]), rng.getrandbits(64), rng.randint(1, 4), rng.choice([2, 4]), f[4], f[5]))
+    # long executions: the printed form of their schedules spans several lines
+    for i in range(30 if tier == "quick" else 400):
+        nb = rng.randint(2, 4)
+        bl = []
+        for b in range(nb):
+            ops = ["sp%d" % j for j in range(1, nb)] if b == 0 else []
+            for _ in range(rng.randint(25, 45)):
+                ops.append(rng.choice(["yd", "yd", "a0.add.1", "a0.ld", "rn", "lk1;a0.add.2;ul1"]))
+            if b == 0:
+                ops += ["jn%d" % j for j in range(nb - 1)]
+            bl.append(";".join(ops))
+        rcases.append("replay %s %d %d %d none a0,m %s" % (rng.choice(["random", "pct", "urw", "rr"]), rng.getrandbits(64), rng.randint(1, 4), rng.choice([1, 3]), "|".join(bl)))
     for i in range(n // 4):
         objs, bodies = gen_prog.gen_program(rng, max_bodies=3, max_ops=5, features=tuple(f for f in gen_prog.ALL if f != "panic"))
         rcases.append("nondet %d %d none %s %s" % (rng.getrandbits(64), rng.choice([2, 5, 10]), objs, bodies))
